@@ -5,6 +5,16 @@ VERIF = os.path.dirname(os.path.dirname(os.path.abspath(__file__)))
 sys.path.insert(0, os.path.join(VERIF, 'contracts'))
 import registry
 
+
+def native_note(pid):
+    """bounded native stand-ins of this property (run on every check, listed under coverage.bounded, never counted as proved)"""
+    ns = [(n, sp) for n, sp in getattr(registry, 'NATIVE', {}).items() if pid in sp.get('props', [])]
+    if not ns:
+        return ''
+    return ('Bounded native stand-ins (the real functions run natively on an enumerated input family where neither verifier reaches; '
+            'labelled bounded-native in the evidence, never counted as proved): ' + '; '.join(f'{n} [{sp["bound"][:160]}]' for n, sp in ns) + '.')
+
+
 ALL = ['C%02d' % i for i in range(1, 21)]
 checks = []
 for pid in sorted(registry.PROPS):
@@ -18,7 +28,7 @@ for pid in sorted(registry.PROPS):
         'replay_cmd_template': f'./check {pid} --replay {{path}}',
         'engine': 'verus+kani',
         'level_claimed': {'category': p.get('level', 'proof'), 'text': m.get('text', ''), 'design_ref': m.get('design_ref', 'DESIGN.md §6 ' + pid)},
-        'level_note': m.get('note', ''),
+        'level_note': (m.get('note', '') + ' ' + native_note(pid)).strip(),
         'technique': m.get('technique', 'contract-based deductive verification: Verus contracts on functions extracted verbatim from /repo + Kani function contracts / full-domain harnesses on an annotated mirror of /repo'),
     })
 na = [{'property_id': pid, 'reason': registry.NOT_APPLICABLE.get(pid, 'check not built yet in this session (work in progress; see DESIGN.md §6)')} for pid in ALL if pid not in registry.PROPS]
